@@ -120,10 +120,10 @@ SPEC = list("\\.+*?()|[]{}^$#")
 A17 = SPEC + ["a", "b", "1", "-", " ", "\n", "é", "€", "𝄞", "&", "~", "/", ":", ",", "<", ">", "'", "=", "!",
                 # every other ASCII whitespace / control class and the remaining punctuation: none of them is special
                 "\t", "\r", "\x0b", "\x0c", "\x00", "\x1b", "\x7f", "_", "@", '"', "%", "`", ";"]
-HOSTS = ["%s", "(?x)%s", "(?x:%s)(?=)", "x%s", "%sy", "(?=%s)", "(?<!q)%s", "(a)?%s\\1?", "(?>%s)z", "(?:%s){2}", "[ab]%s"]
+HOSTS = ["%s", "(?x)%s", "(?x:%s)(?=)", "(?<=%s)", "x%s", "%sy", "(?=%s)", "(?<!q)%s", "(a)?%s\\1?", "(?>%s)z", "(?:%s){2}", "[ab]%s"]
 # hosts in which the embedded escape(s) must still find exactly str::find(s): alone, and under the
 # free-spacing flag (plain and VM-compiled), where an unescaped '#' would open a comment
-FIND_HOSTS = ("%s", "(?x)%s", "(?x:%s)(?=)")
+FIND_HOSTS = ("%s", "(?x)%s", "(?x:%s)(?=)", "(?<=%s)")
 
 
 def run_c17(tier, seed, replay=None):
@@ -171,7 +171,7 @@ def run_c17(tier, seed, replay=None):
         if not s:
             continue
         tx = texts + [s, "x" + s + "y", s + s, "q" + s]
-        for h in (HOSTS if tier == "thorough" or len(s) <= 2 else HOSTS[:6]):
+        for h in (HOSTS if tier == "thorough" or len(s) <= 2 else HOSTS[:7]):
             pat = h % esc[s]
             for t in tx:
                 lines.append("%s\t%s\t-\t0\tfind:0" % (hexs(pat), hexs(t)))
@@ -185,14 +185,16 @@ def run_c17(tier, seed, replay=None):
             continue
         if h not in FIND_HOSTS:
             continue
-        if h != "%s" and any(c in " \t\n\r\x0b\x0c" for c in s):
+        if h.startswith("(?x") and any(c in " \t\n\r\x0b\x0c" for c in s):
             continue      # free-spacing hosts: escape does not (and is not documented to) protect whitespace
         nfind += 1
         tb, sb = t.encode(), s.encode()
         k = tb.find(sb)
         want = "none" if k < 0 else "%d-%d" % (k, k + len(sb))
+        if h == "(?<=%s)" and k >= 0:       # the look-behind host finds the END of the first occurrence
+            want = "%d-%d" % (k + len(sb), k + len(sb))
         if v[1] != want:
-            viol.append({"kind": "input", "string": s, "text": t, "host": h, "impl": v[1], "reference": want, "check": "Regex::new(host(escape(s))).find(t) = t.find(s), host = the bare pattern or a free-spacing group"})
+            viol.append({"kind": "input", "string": s, "text": t, "host": h, "impl": v[1], "reference": want, "check": "Regex::new(host(escape(s))).find(t) = t.find(s), host = the bare pattern, a free-spacing group, or a look-behind (which finds the end of the first occurrence)"})
     # embedded hosts: compare with the same host around a literal built by hand (one literal per char)
     res.oblige("property: escape(s) compiles (plain and embedded in fancy hosts), parses to the literal chain of s, finds exactly str::find(s) (%d searches), borrows iff nothing to escape" % nfind, not viol)
     res.cov.update(evaluations=len(strs) + len(lines), distinct_nontrivial=sum(1 for s in strs if any(c in s for c in SPEC)),
